@@ -26,11 +26,18 @@ func runC13(c *Ctx) {
 	dos := callsIn(sub, "(*net/http.Client).Do")
 	rrs := callsIn(sub, "(rt.ClientResponseReader).ReadResponse")
 	pms := callsIn(sub, "mime.ParseMediaType")
-	c.obF("R13.1", sub, "shape", len(dos) == 1 && len(rrs) == 1 && len(pms) == 1, "Submit sends, parses the content type and hands the response to the reader", fmt.Sprintf("%d Do, %d ReadResponse, %d ParseMediaType", len(dos), len(rrs), len(pms)))
-	if len(dos) != 1 || len(rrs) != 1 || len(pms) != 1 {
+	c.obF("R13.1", sub, "shape", len(dos) == 1 && len(rrs) >= 1 && len(pms) == 1, "Submit sends, parses the content type and hands the response to the reader", fmt.Sprintf("%d Do, %d ReadResponse, %d ParseMediaType", len(dos), len(rrs), len(pms)))
+	if len(dos) != 1 || len(rrs) < 1 || len(pms) != 1 {
 		return
 	}
-	do, rr, pm := dos[0].(*ssa.Call), rrs[0].(*ssa.Call), pms[0].(*ssa.Call)
+	for _, one := range rrs {
+		ruleC13For(c, sub, dos[0].(*ssa.Call), one.(*ssa.Call), pms[0].(*ssa.Call), one == rrs[0])
+	}
+}
+
+// ruleC13For checks one hand-over of the response to the reader (there is usually exactly one).
+func ruleC13For(c *Ctx, sub *ssa.Function, do, rr, pm *ssa.Call, first bool) {
+	p := c.P
 	res := resultOf(do, 0)
 	isRes := vOrigins(oIsValue(res))
 	mt := resultOf(pm, 0)
@@ -75,7 +82,7 @@ func runC13(c *Ctx) {
 		s, okS := constString(lk.Index)
 		return okS && s == "*/*"
 	}
-	okC, badC := allOrigins(cons, exact, catchAll)
+	okC, badC := allOrigins(cons, exact, catchAll, oNil()) // (nil: a helper's result on its error path; the reader runs only when a consumer was found, checked below)
 	c.obI("R13.1", rr, "consumer-provenance", okC, "the consumer handed to the reader is Consumers[mediaType] with mediaType the result of mime.ParseMediaType, or the catch-all Consumers[\"*/*\"] — never another consumer and never a key taken from the raw header", "origin "+describeOrigin(badC))
 	// catch-all only on a miss; missing both -> error
 	var exactLk, anyLk *ssa.Lookup
@@ -109,6 +116,9 @@ func runC13(c *Ctx) {
 				}
 			}
 		}
+	}
+	if !first {
+		return
 	}
 	c.min("R13.1", 7)
 
@@ -214,7 +224,15 @@ func runC13(c *Ctx) {
 			// allowed: r.client inside the closure passed to clientOnce.Do in Submit
 			okW := false
 			whyW := "store to Runtime." + field + " on a call path in " + fnName(fn)
-			if field == "client" && fn.Parent() == sub {
+			underSub := false
+			if fn.Parent() != nil {
+				for _, rt := range rootsOf(fn.Parent()) {
+					if rt == sub {
+						underSub = true
+					}
+				}
+			}
+			if field == "client" && underSub {
 				for _, od := range callsIn(sub, "(*sync.Once).Do") {
 					_, oa := callArgs(od.Common())
 					if mc, isMC := oa[0].(*ssa.MakeClosure); isMC && mc.Fn == ssa.Value(fn) {
